@@ -62,6 +62,7 @@ type Ctx struct {
 	nvars   int
 	Atoms   map[string]*AtomInfo
 	IntVars []string
+	CodeVars []string
 	StrVars []string
 
 	// post-lexing symbolisation
